@@ -5,7 +5,9 @@ import json
 import re
 import os
 import shutil
+import signal
 import subprocess
+import tempfile
 import time
 
 from common import *  # noqa
@@ -617,20 +619,89 @@ def make_module(moddir):
     shutil.copy(os.path.join(REPO, "go.sum"), os.path.join(moddir, "go.sum"))
 
 
-def run_cli_one(job):
-    """job: dict(dir, args, timeout).  Returns dict(exit, out, wall)."""
+CPU_HANG_S = 60        # CPU seconds (whole process tree) after which an unfinished run counts as a hang
+WALL_HANG_S = 300      # wall seconds after which an unfinished run counts as a hang even though it burns no CPU
+_CLK = os.sysconf("SC_CLK_TCK")
+
+
+def _session_cpu(sid):
+    """CPU seconds used so far by the processes of session [sid] (their reaped children included)."""
+    ticks = 0
+    for ent in os.listdir("/proc"):
+        if not ent.isdigit():
+            continue
+        try:
+            with open("/proc/%s/stat" % ent) as f:
+                rest = f.read().rsplit(")", 1)[1].split()
+        except (OSError, IndexError):
+            continue
+        # rest[0] is field 3 (state); session = field 6; utime, stime, cutime, cstime = fields 14..17
+        if len(rest) > 14 and rest[3] == str(sid):
+            ticks += sum(int(x) for x in rest[11:15])
+    return ticks / _CLK
+
+
+def _clean_out(out):
+    k = out.find("[SYSTEM]")
+    if k >= 0:
+        out = out[max(0, out.rfind("\n", 0, k)):]
+    return out
+
+
+def run_cli_confirm(job):
+    """The run again, judged by what it does rather than by a stop-watch: it counts as not terminating when its
+    process tree has burnt CPU_HANG_S seconds of CPU (a machine under load slows the wall clock, not this one) or is
+    still there after WALL_HANG_S seconds.  Returns the dict of run_cli_one plus cpu_s."""
     t0 = time.time()
+    with tempfile.TemporaryFile() as fo:
+        p = subprocess.Popen([os.path.join(BIN, "gleece"), *job["args"]], cwd=job["dir"], env=GOENV,
+                             stdout=fo, stderr=subprocess.STDOUT, start_new_session=True)
+        cpu, hung = 0.0, False
+        while True:
+            try:
+                p.wait(timeout=0.5)
+                break
+            except subprocess.TimeoutExpired:
+                pass
+            cpu = max(cpu, _session_cpu(p.pid))
+            if cpu >= job.get("cpu_hang_s", CPU_HANG_S) or time.time() - t0 >= job.get("wall_hang_s", WALL_HANG_S):
+                hung = True
+                try:
+                    os.killpg(p.pid, signal.SIGKILL)
+                except OSError:
+                    pass
+                p.wait()
+                break
+        fo.seek(0)
+        out = fo.read().decode(errors="replace")
+    if hung:
+        return {"exit": -1, "out": out[-2000:], "wall": time.time() - t0, "timeout": True, "cpu_s": round(cpu, 1), "confirmed": True}
+    return {"exit": p.returncode, "out": _clean_out(out), "wall": time.time() - t0, "timeout": False, "cpu_s": round(cpu, 1),
+            "slow_first_attempt": True}
+
+
+def run_cli_one(job):
+    """job: dict(dir, args, timeout).  Returns dict(exit, out, wall, timeout).  A run that is not done within the
+    timeout is killed and run once more under run_cli_confirm: only a run that burns CPU_HANG_S seconds of CPU without
+    finishing (or sits there for WALL_HANG_S seconds) is reported as timed out - a loaded machine alone never is."""
+    t0 = time.time()
+    p = subprocess.Popen([os.path.join(BIN, "gleece"), *job["args"]], cwd=job["dir"], env=GOENV,
+                         stdout=subprocess.PIPE, stderr=subprocess.STDOUT, start_new_session=True)
     try:
-        p = subprocess.run([os.path.join(BIN, "gleece"), *job["args"]], cwd=job["dir"], env=GOENV,
-                           stdout=subprocess.PIPE, stderr=subprocess.STDOUT, timeout=job.get("timeout", 120))
-        out = p.stdout.decode(errors="replace")
-        k = out.find("[SYSTEM]")
-        if k >= 0:
-            out = out[max(0, out.rfind("\n", 0, k)):]
-        return {"exit": p.returncode, "out": out, "wall": time.time() - t0, "timeout": False}
-    except subprocess.TimeoutExpired as e:
-        return {"exit": -1, "out": (e.stdout or b"").decode(errors="replace")[-2000:], "wall": time.time() - t0,
-                "timeout": True}
+        stdout, _ = p.communicate(timeout=job.get("timeout", 120))
+        return {"exit": p.returncode, "out": _clean_out(stdout.decode(errors="replace")), "wall": time.time() - t0, "timeout": False}
+    except subprocess.TimeoutExpired:
+        try:
+            os.killpg(p.pid, signal.SIGKILL)
+        except OSError:
+            pass
+        stdout, _ = p.communicate()
+        if job.get("no_confirm"):
+            return {"exit": -1, "out": (stdout or b"").decode(errors="replace")[-2000:], "wall": time.time() - t0,
+                    "timeout": True}
+        r = run_cli_confirm(job)
+        r["wall"] = time.time() - t0
+        return r
 
 
 def run_cli_many(jobs, workers=16):
